@@ -5,3 +5,6 @@ package truthsocial
 // C10 safety sweep (govc `sweep`): index / slice / division expressions must not panic on
 // server-controlled input. Comment-only file.
 
+
+// every other function of the package (helpers added later included)
+//@ sweepall C10 idx slice div assert
